@@ -641,6 +641,7 @@ def generate(template_path, repo_root, unit_name, canary=False):
             'out_range': [out_start, len(g.lines)], 'tline': b.tline,
             'sha256': hashlib.sha256(text[start:end].encode()).hexdigest()[:16],
             'assumed': bool(getattr(b, 'assumed', False)),
+            'props': b.props,
             'n_requires': count_clauses(split_sections(b.spec).get('requires', [])) if b.kind == 'fn' else 0,
         })
     return g
